@@ -175,13 +175,27 @@ func cmdCheck(argv []string) int {
 			}
 			continue
 		}
+		// an instance all of whose violations are listed known findings ends its
+		// paths at the failing assertion: the reachability guards do not apply to it
+		allKnown := len(ir.Violations) > 0
+		for _, v := range ir.Violations {
+			k := false
+			for _, kf := range known.Findings {
+				if kf.Property == id && kf.Harness == in.Func && kf.Assertion == v.Label {
+					k = true
+				}
+			}
+			if !k {
+				allKnown = false
+			}
+		}
 		want := prop.Covers[in.Func]
 		for _, c := range want {
-			if !ir.Covers[c] {
+			if !ir.Covers[c] && !allKnown {
 				inconcl = append(inconcl, fmt.Sprintf("%s: cover tag %q not reached (vacuity guard)", in.Name(), c))
 			}
 		}
-		if ir.Completed == 0 {
+		if ir.Completed == 0 && !allKnown {
 			inconcl = append(inconcl, in.Name()+": no path ran to completion")
 		}
 		seen := map[vkey]int{}
@@ -545,26 +559,26 @@ func writeEvidence(vd, id string, prop *Property, tier string, seed int, e *Engi
 		"distinct_nontrivial":           nontrivial,
 		"rule": "one evaluation = one feasible symbolic path of a harness instance through the real SSA (distinct decision vectors, so distinct by construction); " +
 			"non-trivial = ran to completion (not assumed away) in a non-vacuity harness; each path stands for all concrete inputs satisfying its path condition",
-		"exhaustive":               len(inconcl) == 0,
-		"functions_encoded":        funcList(e, results),
-		"harness_instances":        instSumm,
-		"assertions_reached":       asserts,
-		"assertions_discharged":    trivial + discharged,
-		"solver_queries":           st.Queries,
-		"solver_sat":               st.Sat,
-		"solver_unsat":             st.Unsat,
-		"solver_unknown":           st.Unknown,
-		"solver_time_s":            st.SolveTime.Seconds(),
-		"solver":                   e.solverKind.String(),
-		"ssa_instructions_executed": steps,
-		"bounds":                   prop.Bounds[tier],
-		"outside_the_bounds":       prop.Outside,
-		"known_findings_reported":  nKnown,
-		"counterexamples_replayed": replayed,
+		"exhaustive":                          len(inconcl) == 0,
+		"functions_encoded":                   funcList(e, results),
+		"harness_instances":                   instSumm,
+		"assertions_reached":                  asserts,
+		"assertions_discharged":               trivial + discharged,
+		"solver_queries":                      st.Queries,
+		"solver_sat":                          st.Sat,
+		"solver_unsat":                        st.Unsat,
+		"solver_unknown":                      st.Unknown,
+		"solver_time_s":                       st.SolveTime.Seconds(),
+		"solver":                              e.solverKind.String(),
+		"ssa_instructions_executed":           steps,
+		"bounds":                              prop.Bounds[tier],
+		"outside_the_bounds":                  prop.Outside,
+		"known_findings_reported":             nKnown,
+		"counterexamples_replayed":            replayed,
 		"counterexamples_reproduced_natively": reproduced,
-		"inconclusive":             inconcl,
-		"encoding_regenerated_from": "/repo working tree (go/packages + go/ssa on every run)",
-		"repo_harness_files":       e.harnessFiles,
+		"inconclusive":                        inconcl,
+		"encoding_regenerated_from":           "/repo working tree (go/packages + go/ssa on every run)",
+		"repo_harness_files":                  e.harnessFiles,
 	}
 	ev := map[string]interface{}{
 		"property_id": id, "tier": tier, "seed": seed, "level": "model_checking",
@@ -577,7 +591,6 @@ func writeEvidence(vd, id string, prop *Property, tier string, seed int, e *Engi
 	os.MkdirAll(filepath.Join(vd, "evidence"), 0o755)
 	os.WriteFile(filepath.Join(vd, "evidence", id+".json"), b, 0o644)
 }
-
 
 // cmdPath: debugging aid — run one path of one instance under a decision
 // prefix given as "kind:pick/n kind:pick/n ..." and dump what happened.
